@@ -53,6 +53,11 @@ def reimposeForced (ctx : Ctx R) (depth : R) (pes : List (Req × Nat)) (out : Li
     pes.foldl (fun out (pe : Req × Nat) => if pe.1.code == 1 then writeBlock pe.2 [ctx.surfaceT] out else out) out
   else out
 
+/-- the early return inside the background loop: forced surface temperature *and* a one-entry request -/
+def earlyReturn (ctx : Ctx R) (depth : R) : List Req → Bool
+  | [p] => p.code == 1 && forcedSurface ctx depth
+  | _ => false
+
 /-- `World::properties(point_3d, depth, properties)` -/
 def World.props3 {G : Type} [RandGen G R] (w : World R) (pt : P3 R) (depth : R) (ps : List Req) : QM G (List R) := do
   let nat := w.ctx.coord.toNatural pt
@@ -60,11 +65,7 @@ def World.props3 {G : Type} [RandGen G R] (w : World R) (pt : P3 R) (depth : R) 
   let q : Query R := ⟨pt, nat, depth, g⟩
   let blocks ← liftE (ps.mapM (initBlock w.ctx g depth))
   let out := blocks.flatten
-  -- the early return inside the background loop: forced surface temperature *and* a one-entry request
-  let early := match ps with
-    | [p] => p.code == 1 && forcedSurface w.ctx depth
-    | _ => false
-  if early then return out
+  if earlyReturn w.ctx depth ps then return out
   let pes := ps.zip (entries ps)
   let out ← w.features.foldlM (fun out f => f.apply w.ctx q pes out) out
   return reimposeForced w.ctx depth pes out
